@@ -96,6 +96,7 @@ func icU256SetFromDecimal(e *Engine, fr *frame, fn *ssa.Function, args []Value, 
 		return e.newErrorString(e.concStr(err.Error())), true
 	}
 	for i := 0; i < 4; i++ {
+		e.raceAccessCell(agg.cells[i], true, e.pos, false)
 		agg.cells[i].v = e.c64(z[i])
 	}
 	return &Iface{}, true
